@@ -202,7 +202,82 @@ def load_reference(verif_root):
         return json.load(f)['functions']
 
 
-def normalise_module(tree, modname, ref, stats):
+def propagate_new_locals(fn, ref_names):
+    """Introducing a local for an expression (to name it, or to evaluate it
+    once) is undone: a local the reference function does not have, bound exactly
+    once by a plain assignment, is replaced by its value at every read and the
+    assignment is dropped.  -> names propagated."""
+    import copy
+    done = []
+    for _ in range(3):
+        params, binds = _locals_of(fn)
+        cand = None
+        for nm, bs in sorted(binds.items(), key=lambda kv: min(o for o, _, _ in kv[1])):
+            if nm in ref_names or nm in params or nm in done or len(bs) != 1:
+                continue
+            if bs[0][1] != 'assign':
+                continue
+            # the binding statement: a plain `nm = value`
+            stmt = None
+            for n in ast.walk(fn):
+                if isinstance(n, ast.Assign) and len(n.targets) == 1 and \
+                        isinstance(n.targets[0], ast.Name) and n.targets[0].id == nm:
+                    stmt = n if stmt is None else False
+                elif isinstance(n, (ast.AugAssign, ast.AnnAssign)) and \
+                        isinstance(n.target, ast.Name) and n.target.id == nm:
+                    stmt = False
+                elif isinstance(n, ast.Delete) and any(isinstance(t, ast.Name) and t.id == nm
+                                                       for t in n.targets):
+                    stmt = False
+                elif isinstance(n, (ast.Global, ast.Nonlocal)) and nm in n.names:
+                    stmt = False
+            if not stmt:
+                continue
+            if any(isinstance(x, (ast.Yield, ast.YieldFrom, ast.Await, ast.NamedExpr, ast.Lambda))
+                   for x in ast.walk(stmt.value)):
+                continue
+            if any(isinstance(x, ast.Name) and x.id == nm for x in ast.walk(stmt.value)):
+                continue
+            # not read by a nested function (it would capture the variable)
+            nested = False
+            for n in ast.walk(fn):
+                if n is not fn and isinstance(n, (ast.FunctionDef, ast.AsyncFunctionDef,
+                                                  ast.Lambda)):
+                    if any(isinstance(x, ast.Name) and x.id == nm for x in ast.walk(n)):
+                        nested = True
+            if nested:
+                continue
+            cand = (nm, stmt)
+            break
+        if cand is None:
+            break
+        nm, stmt = cand
+        value = stmt.value
+
+        class Sub(ast.NodeTransformer):
+            def visit_Name(self, node):
+                if node.id == nm and isinstance(node.ctx, ast.Load):
+                    new = copy.deepcopy(value)
+                    for x in ast.walk(new):
+                        if isinstance(x, (ast.expr, ast.stmt)):
+                            x.lineno, x.col_offset = node.lineno, node.col_offset
+                            x.end_lineno = getattr(node, 'end_lineno', node.lineno)
+                            x.end_col_offset = getattr(node, 'end_col_offset', node.col_offset)
+                    return new
+                return node
+        Sub().visit(fn)
+        for n in ast.walk(fn):
+            for field in ('body', 'orelse', 'finalbody'):
+                blk = getattr(n, field, None)
+                if isinstance(blk, list) and stmt in blk:
+                    blk.remove(stmt)
+                    if not blk and field == 'body':
+                        blk.append(ast.copy_location(ast.Pass(), stmt))
+        done.append(nm)
+    return done
+
+
+def normalise_module(tree, modname, ref, stats, known=None):
     """Rename locals of every function of one module tree in place."""
     def visit(body, prefix):
         for s in body:
@@ -214,6 +289,11 @@ def normalise_module(tree, modname, ref, stats):
                     if m:
                         apply(s, m)
                         stats.append((q, m))
+                if known is not None and (r is not None or q in known):
+                    ref_names = {nm for nm, _ in (r or [])}
+                    done = propagate_new_locals(s, ref_names)
+                    if done:
+                        stats.append((q, {nm: '<propagated>' for nm in done}))
                 visit(s.body, q + '.<locals>')
             elif isinstance(s, ast.ClassDef):
                 visit(s.body, prefix + '.' + s.name)
